@@ -32,6 +32,9 @@ type Sink struct {
 	Faulty bool
 	FailAt int
 	Failed bool
+	// FailFull: the call that crosses the limit is accepted whole and still
+	// reports the error (n == len(p), err != nil: allowed by io.Writer).
+	FailFull bool
 }
 
 // ErrTemporary is the error of a refused call.
@@ -50,6 +53,11 @@ func (s *Sink) Write(p []byte) (int, error) {
 		room := s.FailAt - len(s.Buf)
 		if room < 0 {
 			room = 0
+		}
+		if !s.Failed && s.FailFull && len(p) > room {
+			s.Failed = true
+			s.Buf = append(s.Buf, p...)
+			return len(p), ErrInjected
 		}
 		if s.Failed || len(p) > room {
 			s.Failed = true
